@@ -1,10 +1,11 @@
 #!/venv/bin/python
-"""tools/ingest_seed.py <PROP> <k> [name]: confirm a sub-agent's change
-(/tmp/w2/out/<PROP>/<k>/) in a scratch worktree of /repo and store it as
-/verif/seeded/<PROP>-<k>/ with meta.json describing what was run."""
+"""tools/ingest_seed.py <PROP> <k>: confirm a sub-agent's change
+($SEED_SRC/<PROP>/<k>/, default /tmp/w2/out) in a scratch worktree of /repo
+and store it as /verif/seeded/<PROP>-$SEED_TAG<k>/ (default tag "r2-") with
+meta.json describing what was run."""
 import json, os, shutil, subprocess, sys, tempfile
 prop, k = sys.argv[1], sys.argv[2]
-src = '/tmp/w2/out/%s/%s' % (prop, k)
+src = '%s/%s/%s' % (os.environ.get('SEED_SRC', '/tmp/w2/out'), prop, k)
 patch, demo, notes = (os.path.join(src, n) for n in ('patch.diff', 'demo.py', 'notes.md'))
 for p in (patch, demo):
     if not os.path.exists(p):
@@ -60,7 +61,7 @@ meta['what_was_run'] = ('scratch worktree of /repo HEAD; demo on clean tree; git
                         'full test-suite with the change; demo with the change; ./check C01..C20 --repo <worktree>')
 ok = meta['demo_on_clean_tree'] == 'exit 0' and '846 passed' in meta['tests_with_change'] and not meta['demo_with_change'].startswith('exit 0')
 meta['confirmed'] = ok
-dst = '/verif/seeded/%s-r2-%s' % (prop, k)
+dst = '/verif/seeded/%s-%s%s' % (prop, os.environ.get('SEED_TAG', 'r2-'), k)
 if ok:
     os.makedirs(dst, exist_ok=True)
     shutil.copy(patch, dst); shutil.copy(demo, dst)
